@@ -118,7 +118,7 @@ func checkC11(c *Ctx) {
 	if len(gos) > 0 {
 		c.Notes = append(c.Notes, "gocc starts goroutines: scheduling is outside this kernel-level claim")
 	}
-	c.BoundsText = append(c.BoundsText, "lexer writers (genLexer, genTransitionTable, genActionTable; with and without -debug_lexer) and parser table writers (GenActionTable, GenGotoTable, GenParser, GenProductionsTable; plain and -zip) on a small grammar: template and gob/gzip-encoder input recorded in natural map order and with one execution of a range-over-map statement in another order (every choice on its own path) must be deeply equal")
+	c.BoundsText = append(c.BoundsText, "token writer (GenToken), lexer writers (genLexer, genTransitionTable, genActionTable; with and without -debug_lexer) and parser table writers (GenActionTable, GenGotoTable, GenParser, GenProductionsTable; plain and -zip) on a small grammar: template and gob/gzip-encoder input recorded in natural map order and with one execution of a range-over-map statement in another order (every choice on its own path) must be deeply equal")
 	c.BoundsText = append(c.BoundsText, "kernel level only: 2-safety harnesses over functions that iterate maps on the generation path, with every map iteration order symbolic (a fresh permutation index per range statement, <= 4 entries); the run also lists from SSA every range over a map in gocc's packages and which of them a harness executed (evidence keys map_range_sites_*), and every go statement (none = no scheduling nondeterminism)",
 		"outside the claim: byte identity of whole runs; map ranges listed as not vetted (several only feed debug/verbose output); hash-seed effects other than iteration order")
 	c.Assumptions = append(c.Assumptions, "Go's map iteration nondeterminism = an arbitrary permutation of the entries per range statement")
@@ -184,6 +184,34 @@ func c11WriterJobs() []Job {
 		RepoMod + "/internal/io.WriteFile":       zero,
 		RepoMod + "/internal/io.WriteFileString": zero,
 	}
+	tpkg := RepoMod + "/internal/token/gen/golang"
+	trec := func(e *engine.Engine, st *engine.St, args []engine.Value, call *ssa.CallCommon) (engine.Value, bool) {
+		f := e.FindFunc(tpkg, "verifRecordExecute")
+		if f == nil {
+			panic("harness function verifRecordExecute not found")
+		}
+		e.CallFunc(st, f, []engine.Value{args[2]}, nil)
+		return zero(e, st, args, call)
+	}
+	jobs = append(jobs, Job{
+		Name:   "token writer",
+		Target: repoTarget("internal/token/gen/golang", "golang", "tokgen/c11.go"),
+		Run: SymRun{Harness: "VerifC11TokenWriter", LoopBound: 2000, ConcreteFmt: true, ForkFuncs: []string{"VerifC11TokenWriter"}, ForkPkgs: []string{tpkg},
+			Intrinsics: map[string]engine.Intrinsic{
+				"text/template.New":                 zero,
+				"(*text/template.Template).Parse":   zero,
+				"(*text/template.Template).Execute": trec,
+				"go/format.Source":                  zero,
+				RepoMod + "/internal/io.WriteFile":  zero,
+			},
+			InitPkgs: func(p string) bool {
+				return p == "sort" || p == "unicode" || p == "unicode/utf8" || p == "strconv" || p == tpkg || p == RepoMod+"/internal/token"
+			}},
+		TimeoutS:       300,
+		ReplayParams:   map[string]int{"REPEAT": 40},
+		RequiredCovers: []string{"end"},
+		Bounds:         "token/gen/golang.GenToken on a terminal list of eight spellings: the data handed to text/template (typeMap, idMap) in natural map order and with ONE execution of any range-over-map statement in another order must be deeply equal",
+	})
 	for dbg := 0; dbg <= 1; dbg++ {
 		jobs = append(jobs, Job{
 			Name:   fmt.Sprintf("lexer writers debug=%d", dbg),
